@@ -46,8 +46,8 @@ META = {
             "(slice [1:0]), the source text `x := [:]` (unbounded recursion parseArray <-> compileArrayRangeInitializer: fatal stack "
             "overflow in the compiler), make() with a size beyond Go's allocation limit (makeslice panic) and the debugger's getLine on a comment-only / empty-string command (index [-1] in the debugger "
             "goroutine: kills the server from /admin/run debug mode). Left as known findings: self-referential maps/arrays "
-            "overflow the Go stack in the formatter / JSON sanitizer (fatal, unrecoverable); the exponent operator with a float "
-            "and a non-float operand (1.5 ^ 2) panics in exponentByteCode (interface conversion).",
+            "overflow the Go stack in the formatter / JSON sanitizer (fatal, unrecoverable). Repaired later in /repo (c3e03a6e): the "
+            "exponent operator with a float base and a non-float exponent (1.5 ^ 2) panicked in exponentByteCode.",
     "technique": "Lean 4 proof (induction over call sequences, Except-monad model of Go partial operations) + go/ast translator "
                  "obligation + model/implementation correspondence + budgeted fuzz search",
     "design_ref": "DESIGN.md §6 C07",
